@@ -15,10 +15,12 @@ pub struct C13;
 fn transcript<V: JsonValueTrait>(v: &V) -> String {
     let num = v.as_number().map(|n| crate::mon::common::fmt_refnum(number_class(&n)));
     format!(
-        "type={:?} null={} bool={:?} is_bool={} is_num={} is_str={} is_arr={} is_obj={} is_f64={} is_i64={} is_u64={} f64={:?} i64={:?} u64={:?} num={:?} str={:?} rawnum={:?}",
+        "type={:?} null={} bool={:?} true={} false={} is_bool={} is_num={} is_str={} is_arr={} is_obj={} is_f64={} is_i64={} is_u64={} f64={:?} i64={:?} u64={:?} num={:?} str={:?} rawnum={:?}",
         v.get_type(),
         v.is_null(),
         v.as_bool(),
+        v.is_true(),
+        v.is_false(),
         v.is_boolean(),
         v.is_number(),
         v.is_str(),
@@ -58,6 +60,9 @@ fn check_view(ctx: &mut Ctx, src: &str, what: &str, t: &[u8], lazy_tr: String, s
         }
     };
     let want = dom_transcript(&dom, t);
+    if lazy_tr.contains("false=true") != (t == b"false") || lazy_tr.contains("true=true") != (t == b"true") {
+        ctx.fail(&format!("bool-predicates:{}:{}", src, what), format!("{} from {} on {:?}: {}", what, src, crate::core::truncate(&String::from_utf8_lossy(t), 60), lazy_tr));
+    }
     if lazy_tr != want {
         ctx.fail(&format!("accessors-differ:{}:{}", src, what), format!("{} from {} on {:?}:\n lazy {}\n dom  {}", what, src, crate::core::truncate(&String::from_utf8_lossy(t), 120), lazy_tr, want));
     }
